@@ -31,7 +31,9 @@ Definition judge (c : case) : verdict :=
       let '(r, cl) := decode (t_loads lt) (t_mac mt) default_cdec c key (SBytes blob) in
       (forallb (dres_eqb r) rs && list_eqb String.eqb cl calls,
        forallb (verified_b truth c key blob) calls &&
-       (if existsb (fun p => verified_b truth c key blob p)
+       (* a blob made of digits only has lost its digest label: outside the property (theorem hypothesis isdigit blob = false) *)
+       (if isdigit blob then true else
+        if existsb (fun p => verified_b truth c key blob p)
                    (match split_first "_" blob with Some (_, p) => [p] | None => [] end)
         then true else forallb safe rs && match calls with [] => true | _ => false end),
        [])
